@@ -1294,14 +1294,16 @@ pub fn c08(ctx: &mut Ctx) -> String {
         if !(mx > 0.0) {
             continue;
         }
-        // an exact power of two that brings the largest payoff to about 1e-315
-        let e = (1e-315f64 / mx).log2().floor() as i32;
+        // an exact power of two that brings the largest payoff to about 1e-309: just below the
+        // smallest normal double, where the numbers still carry some forty-five bits (deeper down a
+        // harmless reordering of two multiplications already moves a strategy by 1e-8)
+        let e = (1e-309f64 / mx).log2().floor() as i32;
         let t = t.map_payoffs(&|p| p * 2f64.powi(e / 2) * 2f64.powi(e - e / 2));
         ctx.stat("family_subnormal-payoffs");
         let method = ["F", "S", "E"][(i % 3) as usize];
         let params = Params::presets()[((i / 3) % 5) as usize].1;
         let seed = ctx.rng.next() >> 12;
-        for tt in [1u64, 3, 8, 21] {
+        for tt in [1u64, 3, 8] {
             let cfg = Cfg { method: method.into(), params, iters: tt, thr: 0.0, threads: 1, target: None, seed };
             case_solve(ctx, &solve_case(&t, &cfg, &["corr"]));
         }
